@@ -57,7 +57,7 @@ def %(x)s_f1(n):
     _d.drv_event(('fn_run %(x)s f1 %%d' %% n).encode())
     return n * 3 + %(K)d
 
-_d.drv_gate(%(idx)d)
+_d.drv_gate(2 * %(idx)d)
 if _mode == 'rec_self':
     _r = lib.%(x)s_f0(21)
     _d.drv_event(('rec_result %(x)s self %%d' %% _r).encode())
@@ -65,6 +65,7 @@ elif _mode == 'rec_other':
     _o = ctypes.CDLL(os.environ['C28_LIB_%(OX)s'])
     _r = _o.%(ox)s_f1(17)
     _d.drv_event(('rec_result %(x)s other %%d' %% _r).encode())
+_d.drv_gate(2 * %(idx)d + 1)      # second gate: after the recursive call, before the init code ends
 if _mode == 'raise':
     _d.drv_event(b'init_raise %(x)s')
     raise RuntimeError('C28 init failure requested')
@@ -152,35 +153,44 @@ MODES = ['ok', 'ok', 'raise', 'rec_self', 'rec_other']
 def strategy(ctx):
     @st.composite
     def structured(draw):
-        """first caller reaches the init gate; other threads pile up behind it (same or other
-        library) while the gate is closed; gates are then released in a drawn order."""
+        """first caller reaches the first init gate; other threads pile up behind it (same or other
+        library) while that gate is closed (phase 0) or while the init code is parked at its second
+        gate, i.e. after its recursive call (phase 1); gates are then released in a drawn order."""
         nt = draw(st.integers(2, 4))
         first = draw(st.sampled_from('AB'))
         other = 'B' if first == 'A' else 'A'
-        steps = [['S', 0, first, draw(st.integers(0, 1)), 1], ['W', first]]
+        steps = [['S', 0, first, draw(st.integers(0, 1)), 1], ['W', first, 0]]
         started = {first}
-        arg = 2
-        for t in range(1, nt):
+        arg = [2]
+        phases = [draw(st.integers(0, 1)) for _ in range(1, nt)]
+
+        def start(t):
             L = first if draw(st.integers(0, 9)) < 7 else other
-            steps.append(['S', t, L, draw(st.integers(0, 1)), arg])
-            arg += 1
+            steps.append(['S', t, L, draw(st.integers(0, 1)), arg[0]])
+            arg[0] += 1
             if L not in started:
                 started.add(L)
                 if draw(st.booleans()):
-                    steps.append(['W', L])
+                    steps.append(['W', L, 0])
             elif draw(st.booleans()):
                 steps.append(['P', draw(st.sampled_from([1, 5, 20]))])
-        rel = draw(st.permutations(['A', 'B']))
-        steps.append(['R', rel[0]])
+        for t in range(1, nt):
+            if phases[t - 1] == 0:
+                start(t)
+        if 1 in phases:
+            steps.append(['R', first, 0])
+            steps.append(['W', first, 1])
+            for t in range(1, nt):
+                if phases[t - 1] == 1:
+                    start(t)
+            steps.append(['P', draw(st.sampled_from([5, 20]))])
+        rel = draw(st.permutations([[first, 0], [first, 1], [other, 0], [other, 1]]))
+        for L, k in rel[:2]:
+            steps.append(['R', L, k])
         if draw(st.booleans()):
             steps.append(['P', draw(st.sampled_from([1, 5, 20]))])
-        if draw(st.booleans()):
-            t = draw(st.integers(0, nt - 1))
-            steps.append(['R', rel[1]])
-            steps.append(['J', t])
-            steps.append(['S', t, draw(st.sampled_from('AB')), draw(st.integers(0, 1)), arg])
-            arg += 1
-        steps.append(['R', rel[1]])
+        for L, k in rel[2:]:
+            steps.append(['R', L, k])
         return nt, steps
 
     @st.composite
@@ -203,20 +213,21 @@ def strategy(ctx):
                 if L not in started:
                     started.add(L)
                     if draw(st.integers(0, 3)) > 0:
-                        steps.append(['W', L])
+                        steps.append(['W', L, 0])
                 elif draw(st.booleans()):
                     steps.append(['P', draw(st.sampled_from([1, 5, 20]))])
             elif k == 'W':
                 pass           # only meaningful right after the first call into a library
             elif k == 'R':
-                steps.append(['R', draw(st.sampled_from('AB'))])
+                steps.append(['R', draw(st.sampled_from('AB')), draw(st.integers(0, 1))])
             elif k == 'J':
                 # joining a thread whose call is blocked behind an unreleased gate would only
                 # time out: release first (the driver also releases everything at the end)
                 if busy:
                     t = draw(st.sampled_from(sorted(busy)))
-                    steps.append(['R', 'A'])
-                    steps.append(['R', 'B'])
+                    for L in 'AB':
+                        for g in (0, 1):
+                            steps.append(['R', L, g])
                     steps.append(['J', t])
                     busy.discard(t)
             else:
